@@ -213,6 +213,57 @@ func c17HTTPWalks(rep *evid.Reporter, st *c04State, n int) (walks, fetches int) 
 			}})
 		}
 		for _, l := range listings {
+			if n > 0 && n <= 17 {
+				// pageSize=0 written out: whatever the server makes of it (no limit, the default size), following next must come
+				// to an end and yield the listing exactly once
+				name := fmt.Sprintf("%s n=%d GET %s%s?pageSize=0", l.path, n, api, l.path)
+				replay := map[string]interface{}{"engine": "cursorwalk-http", "listing": name}
+				target := "/api/ledger/" + api + "l1/" + l.path + "?pageSize=0"
+				var got []string
+				ended, failed := false, ""
+				for page := 0; page <= len(l.want)+3; page++ {
+					req := httptest.NewRequest("GET", target, nil).WithContext(engineh.QuietCtx())
+					w := httptest.NewRecorder()
+					router.ServeHTTP(w, req)
+					fetches++
+					var body struct {
+						Cursor struct {
+							HasMore bool                     `json:"hasMore"`
+							Next    string                   `json:"next"`
+							Data    []map[string]interface{} `json:"data"`
+						} `json:"cursor"`
+					}
+					dec := json.NewDecoder(bytes.NewReader(w.Body.Bytes()))
+					dec.UseNumber()
+					_ = dec.Decode(&body)
+					if w.Code >= 400 && w.Code < 500 && page == 0 {
+						ended = true // refusing the value is a fine answer
+						got = l.want
+						break
+					}
+					if w.Code != 200 {
+						failed = fmt.Sprintf("GET %s answers %d %s", target, w.Code, w.Body.String())
+						break
+					}
+					for _, it := range body.Cursor.Data {
+						got = append(got, l.key(it))
+					}
+					if !body.Cursor.HasMore {
+						ended = true
+						break
+					}
+					target = "/api/ledger/" + api + "l1/" + l.path + "?cursor=" + url.QueryEscape(body.Cursor.Next)
+				}
+				walks++
+				switch {
+				case failed != "":
+					rep.Violation("http-walk-error:"+l.path, failed+" ["+name+"]", replay)
+				case !ended:
+					rep.Violation("http-walk-endless:"+l.path, fmt.Sprintf("following next does not come to an end (%d pages fetched for %d items, items seen so far: %v) [%s]", len(l.want)+4, len(l.want), got, name), replay)
+				case strings.Join(got, ",") != strings.Join(l.want, ","):
+					rep.Violation("http-walk-content:"+l.path, fmt.Sprintf("following next yields %v, the listing is %v [%s]", got, l.want, name), replay)
+				}
+			}
 			sizes := []int{0, 1, 2, n, n + 1}
 			if n > 50 {
 				// around the largest page of v2 (100; a larger request is served 100 at a time) - v1 serves up to 1000
